@@ -557,6 +557,15 @@ class ProxyIncref(Unit):
                 ev(s, 'idset.discard', box(e, a[0]))
                 return [('ok', s, NONE)]
 
+            def m_remove(self_, e, s, a, k, n):
+                s = s.fork()
+                ev(s, 'idset.discard', box(e, a[0]))
+                return [('ok', s, NONE)]
+
+            def contains(self_, e, s, item):
+                # a per-process SET shared by all the proxies of this process: another proxy of the same object may already have removed the id
+                return fresh('id_in_idset', z3.BoolSort())
+
             def truth(self_, e, s):
                 return z3.Bool('idset_nonempty_afterwards')
         self.idset = IdSet(ex, 'idset')
@@ -620,6 +629,19 @@ class ProxyIncrefInServer(ProxyIncref):
     in_server = True
     canaries = (('in-server increment goes to another ident', 'server.incref(None, self._token.id)', 'server.incref(None, self._token)', ''),
                 ('increment skipped inside the server', '            server.incref(None, self._token.id)', '            pass', ''))
+
+
+class ProxyIncrefAfterFork(ProxyIncref):
+    """_incref called again on a proxy that already carries a `_close` finalizer attribute: the stdlib's after-fork hook (BaseProxy._after_fork) does this in a
+    forked child, whose copy of the proxy must take its OWN reference and register its OWN finalizer (the inherited one belongs to the parent's pid)."""
+    variant = 'client, after fork (finalizer attribute inherited)'
+    canaries = ()
+
+    def setup(self, ex):
+        st = super().setup(ex)
+        self.me.set(st, '_close', Rec(ex, 'inherited_finalizer', immutable=True))
+        ex.globals['getattr'] = Fn(lambda e, s, a, k, n: e.getattr(s, a[0], a[1].as_string(), n) if z3.is_string_value(a[1]) and unbox_handle(e, a[0]) is self.me and self.me.has(s, a[1].as_string()) else [('ok', s, a[2] if len(a) > 2 else NONE)])
+        return st
 
 
 class ProxyDispatch(Unit):
@@ -1000,7 +1022,7 @@ class C13Lemma(LemmaUnit):
         yield ('a decrement by a live reference never finds the count at 0 (stdlib decref would raise)', base + [z3.Or(live >= 1, transit >= 1)], rc >= 1)
 
 
-UNITS = [ServerCreate, ServerCreateInterference, ServerCreateBadArgs, ServerCreateTyped, ServerCreateCallable, MakeProxy, MakeProxyAuto, MakeProxyMemory, ServerIncref, ServerDecref, ProxyInit, ProxyIncref, ProxyIncrefInServer, ProxyDispatch,
+UNITS = [ServerCreate, ServerCreateInterference, ServerCreateBadArgs, ServerCreateTyped, ServerCreateCallable, MakeProxy, MakeProxyAuto, MakeProxyMemory, ServerIncref, ServerDecref, ProxyInit, ProxyIncref, ProxyIncrefInServer, ProxyIncrefAfterFork, ProxyDispatch,
          ProxyDecref, ProxyDecrefInServer, ProxyReduce, ProxyReduceInServer, Rebuild, RebuildInServer, Managed, ManagedOutside, MemRelease, MemInit, MemDel, C13Lemma]
 SCENARIOS = [('Server.', 'replay/scenarios/c13_rewrap_vs_last_decref.py'), ('', 'replay/scenarios/c13_refcount_histories.py', [1, 2, 3, 4, 5, 6])]
 BOUNDED = [{'function': 'whole histories across processes (create/pickle/unpickle/child/store/remove/managed/delete)', 'method': 'runtime scenario replay/scenarios/c13_refcount_histories.py against a reference-count model', 'bound': '6 seeds x 45 steps (thorough tier and fallback)', 'counted_as_proved': False}]
